@@ -282,7 +282,8 @@ Definition qeffect (k : opk) (s s' : qstate) : Prop :=
   | KAdd => qpop s' = qpop s /\ qclosed s' = qclosed s /\ qtok s' = qtok s
   | KSend => qpop s' = qpop s /\ qclosed s' = qclosed s /\ qapp s' = qapp s
   | KClose => qpop s' = qpop s /\ qapp s' = qapp s /\ qtok s' = qtok s /\ qclosed s' = true
-  | KTake | KPop => qapp s' = qapp s /\ qclosed s' = qclosed s
+  | KTake => qapp s' = qapp s /\ qclosed s' = qclosed s /\ qpop s' = qpop s
+  | KPop => qapp s' = qapp s /\ qclosed s' = qclosed s /\ exists x, qpop s' = qpop s ++ [x]
   | KRemAll | KDisc => qapp s' = qapp s /\ qclosed s' = qclosed s
   end.
 
@@ -344,7 +345,7 @@ Proof.
     destruct cl; try discriminate.
     unfold pop_head in Hstep. destruct (qvals (getq c q)) as [|x vals]; injection Hstep as <-.
     + apply Hnoq.
-    + apply Hgen. intros Hl. exists KPop. simpl. auto.
+    + apply Hgen. intros Hl. exists KPop. simpl. repeat split; auto. now exists x.
   - unfold pop_head in Hstep. destruct (qvals (getq c q)) as [|x vals]; injection Hstep as <-.
     + apply Hnoq.
     + apply Hgen. intros Hl. exists KDisc. simpl. auto.
